@@ -238,8 +238,10 @@ type croppedLines struct {
 
 func (c croppedLines) Render(width, height int) *term.Buffer {
 	bb := term.NewBufferBuilder(width)
-	leftSpacing := ui.T(strings.Repeat(" ", c.padding))
-	rightSpacing := ui.T(strings.Repeat(" ", width-c.padding))
+	// The padding cannot use more than the available width.
+	padding := max(0, min(c.padding, width))
+	leftSpacing := ui.T(strings.Repeat(" ", padding))
+	rightSpacing := ui.T(strings.Repeat(" ", width-padding))
 	for i, line := range c.lines {
 		if i > 0 {
 			bb.Newline()
@@ -252,10 +254,10 @@ func (c croppedLines) Render(width, height int) *term.Buffer {
 		if extendStyle && len(left) > 0 {
 			left[0].Style = line[0].Style
 		}
-		acc := ui.Concat(left, line.TrimWcwidth(width-2*c.padding))
+		acc := ui.Concat(left, line.TrimWcwidth(width-2*padding))
 		if extendStyle || selected {
 			right := rightSpacing.Clone()
-			if extendStyle {
+			if extendStyle && len(right) > 0 {
 				right[0].Style = line[len(line)-1].Style
 			}
 			acc = ui.Concat(acc, right).TrimWcwidth(width)
